@@ -108,6 +108,9 @@ def build_interp_campaign(tier, sd):
         add_E(3, 2, 0.03, 2, tl=True)
         nrand = 6000
 
+    # --- P: transitions in two regions of a parallel (conflict resolution), H: history recorded repeatedly
+    add_PH(cp, tier, rnd, ["lua"], modes=("drip",))
+
     # --- R: random beyond the bound
     rc = families.RandomCharts(sd * 104729 + 17)
     n0 = len(cp.charts)
@@ -118,6 +121,34 @@ def build_interp_campaign(tier, sd):
         cp.add_cases(cid, dms_for(c)[:2], ws, modes=("drip",) if i % 2 else ("drip", "preload"))
     fam["R"] = {"charts": len(cp.charts) - n0, "exhaustive": False}
     return cp
+
+
+P_WORDS = [["e"], ["e", "e"], ["e", "back", "e"]]
+
+
+def add_PH(cp, tier, rnd, dms, modes=("drip",), history=True, pfrac=None):
+    """the two targeted families (gen/families.py enum_P, enum_H); shared by all executable campaigns"""
+    fam = cp.meta["families"]
+    frac = pfrac if pfrac is not None else (1.0 if tier != "mini" else 0.05)
+    n = tot = 0
+    for desc in families.enum_P():
+        tot += 1
+        if frac < 1.0 and rnd.random() >= frac:
+            continue
+        c = families.build_P(desc)
+        cid = cp.add_chart(c)
+        n += 1
+        cp.add_cases(cid, dms, P_WORDS, modes=modes)
+    fam["P"] = {"enumerated": tot, "charts": n, "exhaustive": n == tot, "words": P_WORDS}
+    if history:
+        ws = families.words_H(5 if tier != "thorough" else 6)
+        n = 0
+        for desc in families.enum_H():
+            c = families.build_H(desc)
+            cid = cp.add_chart(c)
+            n += 1
+            cp.add_cases(cid, dms, ws, modes=modes)
+        fam["H"] = {"charts": n, "exhaustive": True, "words": len(ws), "maxword": 5 if tier != "thorough" else 6}
 
 
 # ------------------------------------------------------------------ files
